@@ -15,6 +15,7 @@ import Mqtt5V.Model.Verdict
 import Mqtt5V.Model.Session
 import Driver.Trace
 import Driver.TraceIn
+import Driver.TraceContent
 /-! `mdrv`: the model behind a one-line-in / one-line-out protocol (DESIGN.md Appendix B).
 Imports Model/Spec/Gen only (no Mathlib, so it links as a native executable). -/
 open Mqtt5V
@@ -84,6 +85,7 @@ def pureStep (ws : List String) : String :=
     | _, _, _ => "bad-op"
   | "trace" :: toks => Driver.Trace.step toks
   | "tracein" :: toks => Driver.TraceIn.step toks
+  | "tracecontent" :: toks => Driver.TraceContent.step toks
   | "enc" :: _ => Driver.Codec.step ws
   | "dupenc" :: _ => Driver.Codec.step ws
   | "varlen" :: _ => Driver.Codec.step ws
